@@ -29,6 +29,9 @@ type Session struct {
 	Shard   int
 	NShards int
 
+	// ShrinkTime bounds rapid's minimisation of a failing case (default 20s).
+	ShrinkTime time.Duration
+
 	outPath   string
 	violDir   string
 	known     map[string]KnownFinding
@@ -385,6 +388,11 @@ func Campaign[C any](s *Session, t *testing.T, name, kind string, n int, gen fun
 	mustSetFlag(t, "rapid.checks", strconv.Itoa(n))
 	mustSetFlag(t, "rapid.seed", strconv.FormatUint(s.SubSeed(name), 10))
 	mustSetFlag(t, "rapid.nofailfile", "true")
+	st := s.ShrinkTime
+	if st == 0 {
+		st = 20 * time.Second
+	}
+	mustSetFlag(t, "rapid.shrinktime", st.String())
 	tb := &collectTB{name: s.Prop + "/" + name}
 	var last *Failure
 	var lastPath string
